@@ -96,6 +96,11 @@ FUNC = ['func', 'cfunc']
 # reflected forms
 LAM = 'lam'
 STRM = ['rout', 'crout']
+# the stream of a pattern (a Stream that is not a Routine): only ever the
+# left / first operand of the mixed stream x pattern, stream x channel-list
+# groups
+PSTRM = 'pstrm'
+STRMS = STRM + [PSTRM]
 PAT = ['pat', 'cpat']
 CL = ['clist', 'nclist', 'pclist']
 # 'xlist': ragged and deeper nesting at once ([[a, [b]], [c]])
@@ -109,6 +114,7 @@ FAMILY = {}
 for _f in (FUNC, STRM, PAT, CL, OPD, AP):
     for _k in _f:
         FAMILY[_k] = _f
+FAMILY[PSTRM] = STRM
 POISON = 4099.5     # yielded by a stream operand that got the wrong inval
 COMPOSED = {'func': 'cfunc', 'rout': 'crout', 'pat': 'cpat'}
 
@@ -313,6 +319,8 @@ def build(E, kind, vals):
         return E.stm.Routine(gen)
     if kind == 'crout':
         return +build(E, 'rout', vals)
+    if kind == PSTRM:
+        return E.stm.stream(E.pvals(list(vals)))
     if kind == 'pat':
         return E.pvals(list(vals))
     if kind == 'cpat':
@@ -341,7 +349,7 @@ def build(E, kind, vals):
 def denote(kind, vals):
     if kind in SCALAR:
         return ('const', vals[0])
-    if kind in FUNC or kind in STRM or kind in PAT or kind == LAM:
+    if kind in FUNC or kind in STRMS or kind in PAT or kind == LAM:
         return ('seq', list(vals))
     if kind in ('clist', 'list', 'tuple', 'aparam'):
         return ('list', list(vals))
@@ -355,7 +363,7 @@ def denote(kind, vals):
 def result_family(kinds):
     if any(k in FUNC or k == LAM for k in kinds):
         return 'func'
-    if any(k in STRM or k in PAT for k in kinds):
+    if any(k in STRMS or k in PAT for k in kinds):
         return 'strm'
     if any(k in CL or k in PL or k in AP for k in kinds):
         return 'list'
@@ -367,6 +375,18 @@ def result_family(kinds):
 def tolist(x):
     if isinstance(x, (list, tuple)):
         return [tolist(i) for i in x]
+    return x
+
+
+def plain(E, x):
+    """Observed value for comparison: (channel) lists become plain lists; an
+    abstract object left *unevaluated* where a number is due (a lazy
+    function / stream / pattern / operand whose `==` would itself build a
+    truthy lazy object) becomes a marker string, which equals no number."""
+    if isinstance(x, (list, tuple)):
+        return [plain(E, i) for i in x]
+    if isinstance(x, E.aob.AbstractObject):
+        return f'<unevaluated {type(x).__name__}>'
     return x
 
 
@@ -477,7 +497,7 @@ def _run_stream(E, res, limit):
             return [('raise', type(e).__name__)]
         for k in range(limit):
             try:
-                out.append(('ok', st.next(k)))
+                out.append(('ok', plain(E, st.next(k))))
             except E.stm.StopStream:
                 out.append(('stop',))
                 break
@@ -499,7 +519,8 @@ def _run_embed(E, res, limit):
             return [('raise', type(e).__name__)]
         for k in range(limit):
             try:
-                out.append(('ok', next(g) if k == 0 else g.send(k)))
+                out.append(('ok', plain(E, next(g) if k == 0
+                                        else g.send(k))))
             except StopIteration:
                 out.append(('stop',))
                 break
@@ -521,7 +542,7 @@ def _run_iter(E, res, limit):
         return [('raise', type(e).__name__)]
     for _ in range(limit):
         try:
-            out.append(('ok', next(it)))
+            out.append(('ok', plain(E, next(it))))
         except StopIteration:
             out.append(('stop',))
             break
@@ -544,10 +565,10 @@ def _call_shapes(kinds):
 def _call_point(res, k, shape):
     try:
         if shape == 'kw':
-            return ('ok', res(k=k))
+            return ('ok', plain(env(), res(k=k)))
         if shape == 'spare':
-            return ('ok', res(k, 'spare'))
-        return ('ok', res(k))
+            return ('ok', plain(env(), res(k, 'spare')))
+        return ('ok', plain(env(), res(k)))
     except Exception as e:
         return ('raise', type(e).__name__)
 
@@ -610,12 +631,30 @@ def observe(E, case, objs):
             passes.append((s, run(E, res, limit)))
         return passes
     if fam == 'list':
-        return [('', [('ok', tolist(res))])]
+        if not isinstance(res, (list, tuple)):
+            return [('', [('ok', 'not-a-list:' + type(res).__name__)])]
+        return [('', [('ok', plain(E, res))])]
     if fam == 'opd':
         if isinstance(res, E.Operand):
             res = res.value
-        return [('', [('ok', res)])]
-    return [('', [('ok', res)])]
+        return [('', [('ok', plain(E, res))])]
+    return [('', [('ok', plain(E, res))])]
+
+
+def _zipped_lists(kern, dens):
+    """Stream law with a (channel) list among the operands: as a stream the
+    list is the same value at every `next`, so the k-th value is the
+    element-wise result of the k-th numbers with the whole list."""
+    lens = [len(d[1]) for d in dens if d[0] == 'seq']
+    out = []
+    for k in range(min(lens)):
+        o = lr.elementwise(kern, [d[1][k] if d[0] == 'seq' else d[1]
+                                  for d in dens])
+        out.append(o)
+        if o[0] == 'raise':
+            return out
+    out.append(('stop',))
+    return out
 
 
 def expected(E, case, kern):
@@ -624,6 +663,8 @@ def expected(E, case, kern):
     if fam == 'func':
         return lr.pointwise(kern, dens, 3)
     if fam == 'strm':
+        if any(d[0] == 'list' for d in dens):
+            return _zipped_lists(kern, dens)
         return lr.zipped(kern, dens)
     if fam == 'list':
         return [lr.elementwise(kern, [d[1] for d in dens])]
@@ -633,7 +674,7 @@ def expected(E, case, kern):
 def _kind_family(k):
     if k in FUNC or k == LAM:
         return 'func'
-    if k in STRM:
+    if k in STRMS:
         return 'strm'
     if k in PAT:
         return 'pat'
@@ -942,14 +983,27 @@ def _right_kinds(left, T):
         return out
     if left in AP:
         return ['num', 'aparam', 'list', 'nlist']
+    if left == PSTRM:
+        return ['num', 'pat', 'clist']
     out = ['num'] + list(FAMILY[left])
     if left == 'func':
         out += [LAM]
+    # mixed pairs decided by the stream law (the other operand is evaluated
+    # as a stream: a pattern through its stream, a channel list as the same
+    # value at every next)
+    if left in STRM:
+        out += ['pat']
+    if left in PAT:
+        out += ['rout']
+    if left in ('rout', 'pat'):
+        out += ['clist']
     if T['CROSS']:
         if left in STRM:
-            out += ['pat']
+            out += ['cpat']
         if left in PAT:
-            out += ['rout']
+            out += ['crout']
+        if left in ('crout', 'cpat'):
+            out += ['nclist']
     return out
 
 
@@ -974,7 +1028,7 @@ def _evs(kinds):
     object per mode.  Everything else has one mode (functions are always
     called twice at every point)."""
     if any(k in PAT for k in kinds) and not any(k in FUNC for k in kinds):
-        if any(k in STRM for k in kinds):
+        if any(k in STRMS for k in kinds):
             return [None, 'embed']
         return ['multi']
     return [None]
@@ -1030,6 +1084,11 @@ def _arg_masks(first, nargs, T):
         masks.append([LAM] * nargs)
         if nargs >= 2:
             masks.append([LAM] + ['num'] * (nargs - 1))
+    cross = 'pat' if first in STRMS else ('rout' if first in PAT else None)
+    if cross:
+        masks.append([cross] * nargs)
+        if nargs >= 2:
+            masks.append(['num'] * (nargs - 1) + [cross])
     out = []
     for m in masks:
         if m not in out:
@@ -1119,9 +1178,11 @@ def groups(tier):
                 for l in _left_plain_kinds(r):
                     lift('bin', 'py', name, [l, r])
             continue
-        for l in LIFTED:
+        for l in LIFTED + [PSTRM]:
             for r in _right_kinds(l, T):
                 lift('bin', entry, name, [l, r])
+            if l == PSTRM:
+                continue
             if params[0].default is not inspect.Parameter.empty:
                 lift('bin', entry, name, [l])       # default argument
         if name in COMPARISONS:
@@ -1131,7 +1192,7 @@ def groups(tier):
     for name, (ar, f, sig) in E.builtins.items():
         if ar != 'bin':
             continue
-        for l in LIFTED:
+        for l in LIFTED + [PSTRM]:
             for r in _right_kinds(l, T):
                 lift('bin', 'bi', name, [l, r])
         for r in LIFTED:
@@ -1170,6 +1231,8 @@ def groups(tier):
             for first in LIFTED:
                 for m in _arg_masks(first, nargs, T):
                     lift('nar', entry, name, [first] + m)
+            for m in (['num'] * nargs, ['pat'] * nargs):
+                lift('nar', entry, name, [PSTRM] + m)
             if entry == 'bi' and (T['UTL_NAR'] is None or
                                   name in T['UTL_NAR']):
                 for first in PL + CL:
@@ -1460,6 +1523,8 @@ def _operand_src(kind, vals):
         return f'+{kind[1:]}({v!r})'
     if kind == 'pat':
         return f'pvals({v!r})'
+    if kind == PSTRM:
+        return f'stream(pvals({v!r}))'
     if kind == 'cpat':
         return f'+pvals({v!r})'
     if kind == 'clist':
